@@ -944,6 +944,17 @@ func c12RunJob(job *c12Job, tmpRoot string, quick bool) (c12Result, error) {
 	if err != nil {
 		return c12Result{}, err
 	}
+	// every other schedule runs on a manager configured with a root directory RELATIVE to the working directory
+	// (the child has changed into the scratch root): the entry of a shard and the directory its deletion looks
+	// for must be named the same way whichever form the configured root has
+	rootArg := dir
+	if job.Idx%2 == 1 {
+		if cwd, err := os.Getwd(); err == nil {
+			if rel, err := filepath.Rel(cwd, dir); err == nil {
+				rootArg = rel
+			}
+		}
+	}
 	plan := models.UserPlan{}
 	if job.Backup {
 		plan.ShardBackupFrequency, plan.ShardBackupCount = 1, 1
@@ -952,7 +963,7 @@ func c12RunJob(job *c12Job, tmpRoot string, quick bool) (c12Result, error) {
 		job:   job,
 		ctx:   c12NewCtx(job),
 		rng:   newRng(job.Seed, 12),
-		sm:    cluster.NewShardManager(cluster.ShardManagerConfig{RootDir: dir, ShardTimeout: 1, MaxCacheSize: -1}),
+		sm:    cluster.NewShardManager(cluster.ShardManagerConfig{RootDir: rootArg, ShardTimeout: 1, MaxCacheSize: -1}),
 		col:   models.Collection{UserId: "u", Id: "c", UserPlan: plan},
 		root:  dir,
 		quick: quick,
@@ -1016,6 +1027,9 @@ func runC12Child(rc *runCtx) error {
 			return err
 		}
 		defer os.RemoveAll(tmpRoot)
+	}
+	if err := os.Chdir(tmpRoot); err != nil {
+		return err
 	}
 	cluster.VerifPauseHook = c12PauseHook
 	for i := range jobs {
